@@ -93,7 +93,8 @@ def strategy(tier):
 
 
 def _ok(c):
-    return gen.servable_name(c["name"], toplevel=not c["sub"] and not c["inzip"], full=c["full"])
+    # (the archive flavour exists with the full handler list only: otherwise the file sits in the real directory)
+    return gen.servable_name(c["name"], toplevel=not c["sub"] and not (c["inzip"] and c["full"]), full=c["full"])
 
 
 def examples(tier):
@@ -188,6 +189,9 @@ def _check_live(case, ctx):
 def check_case(case, ctx):
     if case.get("mode") == "live":
         return _check_live(case, ctx)
+    if case.get("mode") != "live" and not _ok(case):
+        ctx.label("outside-the-domain")  # e.g. a replayed case with a top-level name in a reserved namespace
+        return []
     name, full, inzip = case["name"], case["full"], case["inzip"] and case["full"]
     data = _content(case["ckind"], case["size"], case["seed"])
     cfg0 = drive.make_config("/x", "full" if full else "shipped")
